@@ -19,7 +19,7 @@ import (
 // c14Docs are JSON texts; "raw:" marks file contents used verbatim (not valid JSON).
 var c14Docs = []string{
 	`{"a":1,"b":[1,2,3]}`, `{"a":2,"b":[1,3,2]}`, `[1,2,2,3]`, `[3,2,1]`, `[{"id":1,"v":1},{"id":2,"v":2}]`, `[{"id":2,"v":2},{"id":1,"v":3}]`,
-	`{"pct":"100% done %s %d","v":[1,"50%"]}`, `[1,[1.0],{"a":2.0},5]`, `[2,[1.05],{"a":2.04},5,[1.0]]`, `{"a":{"b":{"c":{"x":1,"y":2,"z":[1,2,3]}}}}`, `{"a":{"b":{"c":{"x":3,"y":4,"z":[1]}}}}`, ``, `{"a":{"b":"x"}}`, `{"a":{"b":"y","c":[true]}}`, `"str"`, `[[1,2],[2,1]]`, `[[2,1]]`,
+	`{"pct":"100% done %s %d","v":[1,"50%"]}`, `[1,[1.0],{"a":2.0},5]`, `[2,[1.05],{"a":2.04},5,[1.0]]`, `{"a":{"b":{"c":{"x":1,"y":2,"z":[1,2,3]}}}}`, `{"a":{"b":{"c":{"x":3,"y":4,"z":[1]}}}}`, ``, `{}`, `{"a":{"b":"x"}}`, `{"a":{"b":"y","c":[true]}}`, `"str"`, `[[1,2],[2,1]]`, `[[2,1]]`,
 }
 
 func init() {
@@ -28,7 +28,7 @@ func init() {
 	c14Docs = append(c14Docs[:8:8], append([]string{big}, c14Docs[8:]...)...)
 }
 
-var c14Raw = []string{"raw:{invalid", "raw:a: [1, 2]\nb: x\n", "raw:msg: |\n  line one\n  line two\n", "raw:  a: 1\n  b:\n  - x\n", "raw:\n\n[1,2]\n\n"}
+var c14Raw = []string{"raw:\ufeff{\"a\":1}", "raw:\ufeffa: 1\n", "raw:{invalid", "raw:a: [1, 2]\nb: x\n", "raw:msg: |\n  line one\n  line two\n", "raw:  a: 1\n  b:\n  - x\n", "raw:\n\n[1,2]\n\n"}
 
 type c14Flags struct {
 	Arrays    string // "", "-set", "-mset", "-setkeys id"
@@ -173,7 +173,7 @@ func init() {
 		Bounds: func(tier string) map[string]interface{} {
 			n := len(c14Docs)
 			if tier != "thorough" {
-				n = 13
+				n = 14
 			}
 			return map[string]interface{}{"input_files": n, "raw_inputs": len(c14Raw), "flag_vectors": len(c14FlagSpace(tier)), "binaries": c14Bins}
 		},
@@ -201,7 +201,7 @@ func enumC14(tier string, e *engine.Emitter) {
 	}
 	docs := c14Docs
 	if tier != "thorough" {
-		docs = docs[:13]
+		docs = docs[:14]
 	}
 	flags := c14FlagSpace(tier)
 	for _, bin := range c14Bins {
@@ -495,7 +495,9 @@ func runC14Diff(c *engine.Case) engine.Result {
 	} else {
 		args = append(args, cli.WriteFile(dir, "b.in", bText))
 	}
-	got := cli.Run(dir, bin, args, stdin)
+	// the same bytes arrive through a pipe, a regular file or (when empty) /dev/null, in rotation over the cases
+	stdinHow := []string{"pipe", "file", "null"}[(len(c.A)+len(c.B)+len(c.X))%3]
+	got := cli.RunWith(dir, bin, args, stdin, stdinHow)
 	res.Transitions++
 	res.Traces++
 	want := modelDiff(lib, f, aText, bText)
@@ -569,7 +571,11 @@ func runC14Diff(c *engine.Case) engine.Result {
 	pargs := append(append([]string{}, extra...), "-p")
 	pargs = append(pargs, f.args()...)
 	pOut := filepath.Join(dir, "patched.out")
-	if f.Out {
+	if f.Out && !f.Stdin && (len(c.A)+len(c.B))%2 == 0 {
+		// patching in place: the output file is the document being patched
+		pOut = fa
+		pargs = append(pargs, "-o", pOut)
+	} else if f.Out {
 		// the patch mode honours -o as well, over an existing longer file
 		os.WriteFile(pOut, []byte(strings.Repeat("stale output from an earlier run\n", 200)), 0644)
 		pargs = append(pargs, "-o", pOut)
@@ -581,7 +587,7 @@ func runC14Diff(c *engine.Case) engine.Result {
 	} else {
 		pargs = append(pargs, fd, fa)
 	}
-	pgot := cli.Run(dir, bin, pargs, pStdin)
+	pgot := cli.RunWith(dir, bin, pargs, pStdin, stdinHow)
 	if f.Out && pgot.Exit == 0 {
 		if pgot.Stdout != "" {
 			res.Violation = fmt.Sprintf("jd -p -o printed to stdout: %q | flags: -p %s %s", pgot.Stdout, strings.Join(extra, " "), c.X)
@@ -785,7 +791,7 @@ func runC14Trans(c *engine.Case) engine.Result {
 	} else {
 		args = append(args, cli.WriteFile(dir, "in.txt", input))
 	}
-	got := cli.Run(dir, bin, args, stdin)
+	got := cli.RunWith(dir, bin, args, stdin, []string{"pipe", "file", "null"}[(len(c.A)+len(c.X))%3])
 	res.Transitions++
 	res.Traces++
 	res.Nontrivial = true
